@@ -76,6 +76,7 @@ int main(int argc, char** argv) {
 			}
 			randomx_destroy_vm(vm); randomx_release_cache(c);
 		}
+		if (shard == 0) { R.sample(vf::Json::obj().set("record", "arith <pair index> <digest of mulh,smulh,rotr,rotl>").set("example_pair", "a=0x8000000000000000 b=0xffffffffffffffff")); R.sample(vf::Json::obj().set("record", "prog <global index> <digest of register file, scratchpad, rounding mode>").set("family", fam[0].name)); R.sample(vf::Json::obj().set("record", "hash <key,input,version> <digest>; fenv <same id> <0 = preserved>")); }
 		fclose(g_out);
 		return R;
 	});
